@@ -80,7 +80,7 @@ Theorem C19_complete_definition_def_shape :
 Proof. exact complete_definition_def_shape. Qed.
 Print Assumptions C19_complete_definition_def_shape.
 
-(* the same for the theory the roles are read off since /repo <COMMIT-F17> (finding F17): the completed
+(* the same for the theory the roles are read off since /repo 70e6ace (finding F17): the completed
    theory followed by the empty completed definitions of the missing output predicates, which are
    def_shape as well *)
 Theorem C19_translated_theory_classified :
